@@ -21,6 +21,7 @@ import (
 	"strconv"
 	"strings"
 
+	"github.com/rs/zerolog"
 	"verifharness/vh"
 )
 
@@ -69,6 +70,7 @@ func execCase(kind string, in []string) []string {
 }
 
 func workerMain() {
+	zerolog.SetGlobalLevel(zerolog.Disabled)
 	sc := bufio.NewScanner(os.Stdin)
 	sc.Buffer(make([]byte, 1<<20), 1<<26)
 	w := bufio.NewWriter(os.Stdout)
